@@ -181,7 +181,7 @@ func (w *world) whole(t *rt.Tape, trace bool, res *core.Result) *core.Result {
 		garbleRand = func(r io.Reader) io.Reader { return &simrand.ShortReader{R: r, Block: block} }
 		res.Reach["garbler-randomness.short-reads-at-block-boundaries"]++
 	}
-	sess := twopc.Session{Circ: circ, X: in[0], Y: in[1], OT: kind, Pipe: pipe, Trace: trace && !tamper, GarbleRand: garbleRand}
+	sess := twopc.Session{Circ: circ, X: new(big.Int).Set(in[0]), Y: new(big.Int).Set(in[1]), OT: kind, Pipe: pipe, Trace: trace && !tamper, GarbleRand: garbleRand}
 	// One untampered case in four: the garbler process serves a second session
 	// of the same circuit afterwards (same OT object, same env.Config, other
 	// inputs). Whatever it keeps between sessions must not make the two
